@@ -79,10 +79,14 @@ type payOut struct {
 }
 
 type reqSpec struct {
-	API      string   `json:"api"` // create | send | sendwith | fundpsbt
-	Acct     uint32   `json:"acct"`
-	Scope    int      `json:"scope"` // purpose; 0 = no key scope
-	Coin     int      `json:"coin,omitempty"`
+	API   string `json:"api"` // create | send | sendwith | fundpsbt
+	Acct  uint32 `json:"acct"`
+	Scope int    `json:"scope"` // purpose; 0 = no key scope
+	Coin  int    `json:"coin,omitempty"`
+	// ChgScope/ChgCoin: WithCustomChangeScope (CreateSimpleTx, FundPsbt): the
+	// key scope of the CHANGE output only; 0 = the option is not given
+	ChgScope int      `json:"chg_scope,omitempty"`
+	ChgCoin  int      `json:"chg_coin,omitempty"`
 	MinConf  int32    `json:"minconf"`
 	Rate     int64    `json:"rate"`
 	Strat    string   `json:"strat"` // largest | random | nil
@@ -130,48 +134,50 @@ type c06Input struct {
 type opRef [2]int64 // interned txid, output index
 
 type candObs struct {
-	Op  opRef    `json:"op"`
-	Amt int64    `json:"amt"`
-	H   int32    `json:"h"`
-	CB  bool     `json:"cb"`
-	Own *[3]int  `json:"own"` // address manager: scope purpose, scope coin type, account (null = not found)
+	Op  opRef   `json:"op"`
+	Amt int64   `json:"amt"`
+	H   int32   `json:"h"`
+	CB  bool    `json:"cb"`
+	Own *[3]int `json:"own"` // address manager: scope purpose, scope coin type, account (null = not found)
 	// Priv: the managed address answers PrivKey() (asked only when the request
 	// is for the imported account: the only case the sign / skip decision reads it)
-	Priv bool `json:"priv,omitempty"`
-	AT  string   `json:"at"`
-	VS  int      `json:"vs"`
-	Why []string `json:"why,omitempty"` // ledger's view for the request (evidence only)
+	Priv bool     `json:"priv,omitempty"`
+	AT   string   `json:"at"`
+	VS   int      `json:"vs"`
+	Why  []string `json:"why,omitempty"` // ledger's view for the request (evidence only)
 }
 
 type reqObs struct {
-	API      string    `json:"api"`
-	Site     string    `json:"site"`
-	Acct     uint32    `json:"acct"`
-	Scope    int       `json:"scope"` // purpose (0 = none)
-	Coin     int       `json:"coin"`
-	WO       bool      `json:"wo"` // the wallet's own IsWatchOnlyAccount(scope or BIP86, account) before the call
-	WalletWO bool      `json:"wallet_wo"` // Manager.WatchOnly()
+	API      string `json:"api"`
+	Site     string `json:"site"`
+	Acct     uint32 `json:"acct"`
+	Scope    int    `json:"scope"` // purpose (0 = none)
+	Coin     int    `json:"coin"`
+	ChgScope int    `json:"chg_scope"` // custom change scope (purpose, 0 = none) ...
+	ChgCoin  int    `json:"chg_coin"`  // ... and its coin type
+	WO       bool   `json:"wo"`        // the wallet's own IsWatchOnlyAccount(scope or BIP86, account) before the call
+	WalletWO bool   `json:"wallet_wo"` // Manager.WatchOnly()
 	// SignedObservable: false for FundPsbt (it strips the scripts of its inner creation)
-	SignedObservable bool `json:"signed_observable"`
-	MinConf  int32     `json:"minconf"`
-	Rate     int64     `json:"rate"`
-	Strat    string    `json:"strat"`
-	Explicit []opRef   `json:"explicit"`
-	Allow    []opRef   `json:"allow"`
-	HasAllow bool      `json:"has_allow"`
-	Dry      bool      `json:"dry"`
-	Sorted   bool      `json:"sorted"`
-	Height   int32     `json:"height"`
-	Maturity int32     `json:"maturity"`
-	Locked   []opRef   `json:"locked"`
-	Cands    []candObs `json:"cands"`
-	Outcome  string    `json:"outcome"` // ok (a transaction was created) | error (an error and nothing created, recorded or sent)
-	Err      string    `json:"err,omitempty"`
-	Inputs   []opRef   `json:"inputs"`
-	Signed   bool      `json:"signed"`
-	InModel  bool      `json:"in_model"` // compared with the selection model
-	Bad      []string  `json:"bad,omitempty"`
-	Note     []string  `json:"note,omitempty"`
+	SignedObservable bool      `json:"signed_observable"`
+	MinConf          int32     `json:"minconf"`
+	Rate             int64     `json:"rate"`
+	Strat            string    `json:"strat"`
+	Explicit         []opRef   `json:"explicit"`
+	Allow            []opRef   `json:"allow"`
+	HasAllow         bool      `json:"has_allow"`
+	Dry              bool      `json:"dry"`
+	Sorted           bool      `json:"sorted"`
+	Height           int32     `json:"height"`
+	Maturity         int32     `json:"maturity"`
+	Locked           []opRef   `json:"locked"`
+	Cands            []candObs `json:"cands"`
+	Outcome          string    `json:"outcome"` // ok (a transaction was created) | error (an error and nothing created, recorded or sent)
+	Err              string    `json:"err,omitempty"`
+	Inputs           []opRef   `json:"inputs"`
+	Signed           bool      `json:"signed"`
+	InModel          bool      `json:"in_model"` // compared with the selection model
+	Bad              []string  `json:"bad,omitempty"`
+	Note             []string  `json:"note,omitempty"`
 }
 
 type violation struct {
@@ -885,4 +891,3 @@ func (t *trace) exec(o op) error {
 	}
 	return fmt.Errorf("unknown op %q", o.K)
 }
-
